@@ -345,7 +345,7 @@ static bool EvalChecksig(ScriptExecutionEnvironment& env, const valtype& sig, co
     }
     if (sigversion == SigVersion::TAPROOT) {
         // btcdeb converts taproot spends into actual scripts, but in reality these are checked earlier
-        success = checker.CheckSchnorrSignature(sig, pubkey, SigVersion::TAPROOT, execdata);
+        success = checker.CheckSchnorrSignature(sig, pubkey, SigVersion::TAPROOT, execdata, serror);
         return success;
     }
     switch (sigversion) {
